@@ -326,6 +326,16 @@ PROPS.update({
 })
 
 
+def esc_hist(req, I):
+    b = [int(x) for x in req.split()[2:]]
+    keys = ['esc.unescape.' + ('error' if I.get('un') == 'E' else 'ok')]
+    if any(x in (38, 60, 62, 39, 34) for x in b): keys.append('esc.has-markup-char')
+    if any(x in (9, 10, 13, 32) for x in b): keys.append('esc.has-whitespace')
+    if any(x >= 128 for x in b): keys.append('esc.has-multibyte')
+    if 38 in b and 59 in b: keys.append('esc.has-entity-shape')
+    return keys
+
+
 def xml_hist(req, I):
     t = req.split()
     keys = ['kind.dir%s.multi%s.loops%s' % tuple(t[1:4])]
@@ -336,15 +346,20 @@ def xml_hist(req, I):
 
 PROPS.update({
     'C14': dict(
-        gens=[('xml', 'roundtrip', 1500, 25000, 6)],
-        spec_fields=[r'rnodes', r'redges', r'rdir'], model_fields=[r'rnodes', r'redges', r'rdir', r'agree\.doc'],
+        gens=[('xml', 'roundtrip', 1500, 25000, 6), ('esc', 'names', 1500, 30000, 0), ('esc', 'entities', 1500, 30000, 0)],
+        spec_fields=[r'rnodes', r'redges', r'rdir', r'rt', r'attr'],
+        model_fields=[r'rnodes', r'redges', r'rdir', r'agree\.doc', r'esc', r'un', r'rt', r'attr'],
         impl_checks=[('filesame', '1')],
-        nontrivial=lambda req, I: I.get('redges', '.') not in ('.', '') and not I.get('redges', '').startswith('E'),
-        hist=xml_hist,
+        nontrivial=lambda req, I: (I.get('esc', '.') != '.') if req.startswith('esc') else
+                                  (I.get('redges', '.') not in ('.', '') and not I.get('redges', '').startswith('E')),
+        hist=lambda req, I: esc_hist(req, I) if req.startswith('esc') else xml_hist(req, I),
+        extra_modules=['GraphrsModel.Props.C14Escape'],
         rule='random graphs of all 8 kinds (0..6 nodes) over string names built from XML-special characters, spaces, entity-looking text, '
              'non-ASCII and astral characters, the empty string and the words the reader looks for; weights: signed zero, subnormals, '
              '1.797e308, +-inf, random bit patterns, 25% unweighted; write_graphml_string + write_graphml_file, then read_graphml_string with '
-             'the same specs; non-trivial = at least one edge read back',
+             'the same specs; non-trivial = at least one edge read back. esc family: strings of 0..8 pieces (markup characters, whitespace, '
+             'multi-byte and boundary code points, 40 entity / character-reference shapes incl. overflow, surrogate, signed and unterminated '
+             'ones): quick_xml escape, unescape, unescape(escape(s)), and the crate writing and reading a graph whose node is named s',
         assumptions=COMMON_ASSUME[:2] + ['quick-xml (tokenizer, writer, escaping) and f64 Display/parse are library code: the model starts from '
                                          "quick-xml's event stream of the written document and from the parse result of each weight text"],
     ),
